@@ -573,6 +573,7 @@ func main() {
 	for k, v := range t.Counters {
 		r.Count(k, v)
 	}
+	r.Set("outcome_counts", t.Outcomes) // the complete histogram (report keeps the 60 most frequent classes)
 	ids := make([]int, 0, len(c.samples))
 	for id := range c.samples {
 		ids = append(ids, id)
